@@ -228,6 +228,7 @@ func runOnce(c Case) *evid.Failure {
 	silenceDone := c.SilentAt < 0
 	var silenceStart time.Time
 	timeoutsSeen := 0
+	var lastSilentGap time.Duration
 	fastRtxChecked := false
 	anyRtx := false
 	var fail *evid.Failure
@@ -238,6 +239,9 @@ func runOnce(c Case) *evid.Failure {
 		wait := 400 * time.Millisecond
 		if silent {
 			wait = 200*time.Millisecond<<uint(timeoutsSeen+1) + 2*time.Second
+			if timeoutsSeen > 0 && 2*lastSilentGap+2*time.Second > wait {
+				wait = 2*lastSilentGap + 2*time.Second
+			}
 		}
 		fr, ok := p.Next(wait)
 		if !ok {
@@ -245,7 +249,13 @@ func runOnce(c Case) *evid.Failure {
 				break
 			}
 			if silent {
-				// nothing for far longer than the next timeout: liveness is C02's business
+				// "otherwise it is retransmitted by timeout": with the peer silent and data outstanding a
+				// retransmission of the first unacknowledged segment is due - the first one within the
+				// retransmission timeout (at most the initial 1 s; 2.4 s were waited), each later one at most
+				// twice the previously observed gap after the previous one (2 s more were waited)
+				if w := uint32(edge * payload); w < maxEnd && (timeoutsSeen == 0 || lastSilentGap > 0) {
+					return evid.Failf("timeout-missing", "the peer has been silent for %v (since the stack's last emission %v) with the segment at offset %d unacknowledged (sent up to %d), %d timeout retransmission(s) seen so far, yet no further retransmission came\n%s", time.Since(silenceStart).Round(time.Millisecond), wait, w, maxEnd, timeoutsSeen, render(emits, acks, silenceStart))
+				}
 				evid.Label("silence:gave-up-waiting")
 				silent, silenceDone = false, true
 			}
@@ -340,6 +350,10 @@ func runOnce(c Case) *evid.Failure {
 			timeoutsSeen++
 			if prev != nil {
 				gap := fr.T.Sub(prev.t)
+				lastSilentGap = 0
+				if prev.silent {
+					lastSilentGap = gap
+				}
 				switch {
 				case prev.silent:
 					// k-th subsequent gap >= 200ms * 2^(k-1)
@@ -612,7 +626,7 @@ func render(emits []emit, acks []ackRec, silence time.Time) string {
 }
 
 // timing-sensitive verdicts are confirmed by re-running the case
-var timingSigs = map[string]bool{"early-retransmit": true, "fast-retransmit-missing": true, "timeout-too-early": true, "timeout-backoff": true, "timeout-wrong-segment": true}
+var timingSigs = map[string]bool{"early-retransmit": true, "fast-retransmit-missing": true, "timeout-too-early": true, "timeout-backoff": true, "timeout-wrong-segment": true, "timeout-missing": true}
 
 func runCase(c Case) *evid.Failure {
 	f := runOnce(c)
